@@ -1,15 +1,59 @@
 //! harness driver:
-//!   run replay <cfg.json> <tlc-output> <trace-out.ndjson>   replay TLC behaviours on the real contracts
-//!   run script <cfg.json> <script.json> <trace-out.ndjson>  execute a list of events (witness / replay files)
-//! Every executed event is written to the trace with the projected post-state, so that TLC can
-//! validate it against the specification (spec/KrpTrace.tla).
+//!   run replay <cfg.json> <tlc-output> <trace-out.ndjson>          replay TLC behaviours on the real contracts
+//!   run script <cfg.json> <script.json> <trace-out.ndjson>         execute a list of events (witness / replay files)
+//!   run drive  <cfg.json> <menu.json> <trace-out.ndjson> <seed> <runs> <len>   seeded random driver
+//! Every executed event is written to the trace with the projected post-state and the answers of
+//! the public queries, so that TLC can validate it against the specification (spec/KrpTrace.tla).
+use krp_harness::drive::{Menu, Rng};
 use krp_harness::*;
 use serde_json::{json, Value};
 use std::io::{BufRead, BufReader, Write};
 
-fn line(tx: &Value, o: &Outcome, c: &Chain, cfg: &Cfg) -> Value {
-    let err = if o.err.contains("bank: zero amount") { "bank: zero amount".to_string() } else { o.err.clone() };
-    json!({"tx": tx, "ok": o.ok, "err": err, "fx": o.fx, "st": project(c, cfg), "obs": observe(c, cfg)})
+struct Tracer {
+    out: std::io::BufWriter<std::fs::File>,
+    st: Value,
+    obs: Value,
+    pub lines: u64,
+}
+impl Tracer {
+    fn new(path: &str) -> Tracer {
+        Tracer { out: std::io::BufWriter::new(std::fs::File::create(path).unwrap()), st: Value::Null, obs: Value::Null, lines: 0 }
+    }
+    /// `changed` = the chain may have changed since the last line (re-project), otherwise reuse
+    fn write(&mut self, tx: &Value, o: &Outcome, c: &Chain, cfg: &Cfg, changed: bool) {
+        if changed || self.st.is_null() {
+            self.st = project(c, cfg);
+            self.obs = observe(c, cfg);
+        }
+        let err = if o.err.contains("bank: zero amount") { "bank: zero amount".to_string() } else { o.err.clone() };
+        writeln!(self.out, "{}", json!({"tx": tx, "ok": o.ok, "err": err, "fx": o.fx, "st": self.st, "obs": self.obs})).unwrap();
+        self.lines += 1;
+    }
+}
+
+/// a probe is a dry run: executed on a clone, nothing committed
+fn run_event(c: &mut Chain, tx: &Value) -> (Outcome, bool) {
+    if tx["k"] == "probe" {
+        let mut c2 = c.clone();
+        (apply(&mut c2, &tx["tx"]), false)
+    } else {
+        let o = apply(c, tx);
+        let changed = o.ok;
+        (o, changed)
+    }
+}
+
+fn vary(base: &Cfg, menu: &Value, rng: &mut Rng) -> Cfg {
+    let mut c = base.clone();
+    let v = &menu["vary"];
+    let pick = |rng: &mut Rng, a: &Value| -> Option<Value> { a.as_array().filter(|x| !x.is_empty()).map(|x| x[rng.below(x.len() as u64) as usize].clone()) };
+    if let Some(x) = pick(rng, &v["fee"]) { c.fee = dec_of(&x); }
+    if let Some(x) = pick(rng, &v["thr"]) { c.thr = dec_of(&x); }
+    if let Some(x) = pick(rng, &v["keeper_rate"]) { c.keeper_rate = dec_of(&x); }
+    if let Some(x) = pick(rng, &v["price"]) { c.price = dec_of(&x); }
+    if let Some(x) = pick(rng, &v["periods"]) { c.epoch = x[0].as_u64().unwrap(); c.unbonding = x[1].as_u64().unwrap(); }
+    if let Some(x) = pick(rng, &v["init_vals"]) { c.init_vals = x.as_array().unwrap().iter().map(|y| y.as_u64().unwrap()).collect(); }
+    c
 }
 
 fn main() {
@@ -19,9 +63,9 @@ fn main() {
     let cfg = Cfg::from_json(&cfgv);
     std::panic::set_hook(Box::new(|_| {}));
     let base = setup(&cfg);
-    let mut out = std::io::BufWriter::new(std::fs::File::create(&args[4]).unwrap());
+    let mut tr = Tracer::new(&args[4]);
     let reset = json!({"k": "reset"});
-    let okk = Outcome { ok: true, err: String::new(), fx: vec![] };
+    let okk = || Outcome { ok: true, err: String::new(), fx: vec![] };
     match mode {
         "replay" => {
             let f = BufReader::new(std::fs::File::open(&args[3]).unwrap());
@@ -43,20 +87,20 @@ fn main() {
                 };
                 traces += 1;
                 let mut c = base.clone();
-                writeln!(out, "{}", line(&reset, &okk, &c, &cfg)).unwrap();
+                tr.write(&reset, &okk(), &c, &cfg, true);
                 let mut diverged = false;
                 for (i, st) in states.iter().enumerate().skip(1) {
                     let tx = &st["ev"]["tx"];
-                    let o = apply(&mut c, tx);
+                    let (o, changed) = run_event(&mut c, tx);
                     steps += 1;
-                    let got = project(&c, &cfg);
+                    tr.write(tx, &o, &c, &cfg, changed);
                     if !diverged {
                         let mut d = vec![];
-                        diff("w", &st["w"], &got, &mut d);
+                        diff("w", &st["w"], &tr.st, &mut d);
+                        diff("obs", &st["obs"], &tr.obs, &mut d);
                         if st["ev"]["ok"].as_bool() != Some(o.ok) {
                             d.push(format!("ok: spec {} impl {} ({})", st["ev"]["ok"], o.ok, o.err));
                         }
-                        diff("obs", &st["obs"], &observe(&c, &cfg), &mut d);
                         if o.ok {
                             diff("fx", &st["ev"]["fx"], &Value::Array(o.fx.clone()), &mut d);
                         }
@@ -69,22 +113,75 @@ fn main() {
                             }
                         }
                     }
-                    writeln!(out, "{}", line(tx, &o, &c, &cfg)).unwrap();
                 }
             }
-            println!("{}", json!({"traces": traces, "steps": steps, "diverged_traces": bad, "first": first}));
+            println!("{}", json!({"traces": traces, "steps": steps, "diverged_traces": bad, "first": first, "lines": tr.lines}));
         }
         "script" => {
             let script: Value = serde_json::from_reader(std::fs::File::open(&args[3]).unwrap()).unwrap();
             let mut c = base.clone();
-            writeln!(out, "{}", line(&reset, &okk, &c, &cfg)).unwrap();
+            tr.write(&reset, &okk(), &c, &cfg, true);
             let mut res = vec![];
             for tx in script["events"].as_array().unwrap() {
-                let o = apply(&mut c, tx);
+                let (o, changed) = run_event(&mut c, tx);
                 res.push(json!({"tx": tx, "ok": o.ok, "err": o.err}));
-                writeln!(out, "{}", line(tx, &o, &c, &cfg)).unwrap();
+                tr.write(tx, &o, &c, &cfg, changed);
             }
-            println!("{}", json!({"steps": res}));
+            println!("{}", json!({"steps": res, "lines": tr.lines}));
+        }
+        "drive" => {
+            let menuv: Value = serde_json::from_reader(std::fs::File::open(&args[3]).unwrap()).unwrap();
+            let menu = Menu::from_json(&menuv);
+            let seed: u64 = args[5].parse().unwrap();
+            let runs: u64 = args[6].parse().unwrap();
+            let len: u64 = args[7].parse().unwrap();
+            let probe_every = menuv["probe_every"].as_u64().unwrap_or(0);
+            let auth_probes = menuv["auth_probes"].as_bool().unwrap_or(false);
+            let prefix: Vec<Value> = menuv["prefix"].as_array().cloned().unwrap_or_default();
+            let mut rng = Rng::new(seed);
+            let (mut events, mut oks, mut probes_n) = (0u64, 0u64, 0u64);
+            let mut kinds: std::collections::BTreeMap<String, (u64, u64)> = Default::default();
+            for _ in 0..runs {
+                let rcfg = vary(&cfg, &menuv, &mut rng);
+                let mut c = if menuv["vary"].is_object() { setup(&rcfg) } else { base.clone() };
+                tr.write(&reset, &okk(), &c, &rcfg, true);
+                for tx in &prefix {
+                    let (o, changed) = run_event(&mut c, tx);
+                    tr.write(tx, &o, &c, &rcfg, changed);
+                    events += 1;
+                }
+                let mut i = 0;
+                while i < len {
+                    let b: basset::hub::CurrentBatchResponse = c.q("hub", &basset::hub::QueryMsg::CurrentBatch {});
+                    if b.id > rcfg.max_batch {
+                        break;
+                    }
+                    let kind = menu.pick(&mut rng);
+                    let tx = match drive::gen(&c, &rcfg, &menu, &mut rng, &kind) {
+                        Some(t) => t,
+                        None => { i += 1; continue; }
+                    };
+                    let (o, changed) = run_event(&mut c, &tx);
+                    let e = kinds.entry(kind.clone()).or_default();
+                    e.0 += 1;
+                    if o.ok { e.1 += 1; oks += 1; }
+                    tr.write(&tx, &o, &c, &rcfg, changed);
+                    events += 1;
+                    i += 1;
+                    if probe_every > 0 && i % probe_every == 0 {
+                        let mut ps = drive::probes(&c, &rcfg, &menu.probes, &mut rng);
+                        if auth_probes {
+                            ps.extend(auth::exhaustive_probes(&c, &rcfg, &mut rng));
+                        }
+                        for p in ps {
+                            let (o, _) = run_event(&mut c, &p);
+                            tr.write(&p, &o, &c, &rcfg, false);
+                            probes_n += 1;
+                        }
+                    }
+                }
+            }
+            println!("{}", json!({"runs": runs, "events": events, "ok": oks, "probes": probes_n, "lines": tr.lines, "kinds": kinds.iter().map(|(k, v)| json!([k, v.0, v.1])).collect::<Vec<_>>()}));
         }
         _ => {
             eprintln!("unknown mode");
